@@ -17,6 +17,20 @@ LEVEL_NOTE = 'Trusted: Lean kernel + standard axioms; model-vs-code agreement on
 OPS = {'and': lambda a, b: a & b, 'or': lambda a, b: a | b, 'xor': lambda a, b: a ^ b}
 
 
+def mk13(codes, signed, n, f, **cfg):
+    """operands of 61..63 bits also come with a past (the shared histories stop at 60 bits): an object created empty — its value
+    type is the one of its format, float when it has fraction bits — and filled with its codes afterwards, or created from a float"""
+    if 61 <= n <= 63 and (codes[0] + len(codes)) % 2:
+        if (codes[0] + f) % 3 == 0:
+            x = Fxp(0.0 if len(codes) == 1 else np.zeros(len(codes)), signed, n, f, **cfg)
+        else:
+            x = Fxp(None if len(codes) == 1 else np.zeros(len(codes), dtype=int), signed, n, f, **cfg)
+        x.set_val(codes[0] if len(codes) == 1 else np.array(codes, dtype=np.int64 if signed else np.uint64), raw=True)
+        assert codes_of(x) == list(codes)
+        return x
+    return mk(codes, signed, n, f, **cfg)
+
+
 def exec_BW(t):
     op, kind = t[0], t[1]
     sx, nx, fx = t[2] == 's', int(t[3]), int(t[4])
@@ -25,19 +39,24 @@ def exec_BW(t):
     a = [int(c) for c in parse_list(t[9])]
     b = [int(c) for c in parse_list(t[10])]
     try:
-        x = mk(a, sx, nx, fx, overflow=o)
+        x = mk13(a, sx, nx, fx, overflow=o)
         before = codes_of(x)
         NPOPS = {'and': np.bitwise_and, 'or': np.bitwise_or, 'xor': np.bitwise_xor}
         sp = (nx + len(a) + a[0] + (b[0] if b else 0)) % 3       # content-determined spelling of the same operation
         if op == 'inv':
             z = np.invert(x) if sp == 0 else ~x
         elif kind == 'ff':
-            y = mk(b, sy, ny, fy)
+            y = mk13(b, sy, ny, fy)
             z = NPOPS[op](x, y) if sp == 0 else OPS[op](x, y)
         else:
             # the integer mask as a python integer or (when it fits one) as a NumPy integer scalar, which makes NumPy dispatch the operator
             m = b[0]
-            if sp == 1 and -2 ** 63 <= m < 2 ** 63:
+            if len(b) > 1:
+                # one mask per element: a list, or (when they fit) a NumPy array of them
+                m = np.array(b) if (sp == 1 and all(-2 ** 63 <= v < 2 ** 63 for v in b)) else list(b)
+                if sp == 0:
+                    sp = 2          # (the np.bitwise_* spelling below hands over b[0] only)
+            elif sp == 1 and -2 ** 63 <= m < 2 ** 63:
                 m = np.int64(m)
             elif sp == 2 and 0 <= m < 2 ** 8:
                 m = np.uint8(m)
@@ -58,8 +77,8 @@ def exec_BL(t):
     a = [int(c) for c in parse_list(t[4])]
     b = [int(c) for c in parse_list(t[5])]
     try:
-        x = mk(a, sx, nx, fx)
-        y = mk(b, sy, nx, fx)
+        x = mk13(a, sx, nx, fx)
+        y = mk13(b, sy, nx, fx)
         L = lambda z: tok_list([str(c) for c in codes_of(z)])
         out = [L(~~x), L(~(x & y)), L((~x) | (~y)), L(~(x | y)), L((~x) & (~y)), L(~x)]
     except Exception as e:
@@ -99,6 +118,13 @@ def generate(tier, rng):
                     for cb in range(loy, hiy + 1):
                         if n <= 3 or rng.random() < 0.3:
                             yield 'BW %s ff %s %s %s %s %s' % (rng.choice(['and', 'or', 'xor']), fm(sx, n, f), fm(sy, n, rng.randint(0, n)), rng.choice(OVFS), L(allx), L([cb]))
+                        # both operands arrays (element by element), and an array of masks (D67: only the first operand was iterated)
+                        if True:
+                            yb = [rng.randint(loy, hiy) for _ in allx]
+                            yield 'BW %s ff %s %s %s %s %s' % (rng.choice(['and', 'or', 'xor']), fm(sx, n, f), fm(sy, n, rng.randint(0, n)), rng.choice(OVFS), L(allx), L(yb))
+                            yield 'BW %s ff %s %s %s %s %s' % (rng.choice(['and', 'or', 'xor']), fm(sx, n, f), fm(sy, n, rng.randint(0, n)), rng.choice(OVFS), L([allx[0]]), L(yb))
+                            yield 'BW %s %s %s %s %s %s %s' % (rng.choice(['and', 'or', 'xor']), rng.choice(['fm', 'mf']), fm(sx, n, f), fm(sx, n, f), rng.choice(OVFS), L(allx),
+                                                               L([rng.randint(-(1 << n) - 2, (1 << n) + 2) for _ in allx]))
                     if n >= 2:
                         ca, cb = rng.choice(allx), rng.randint(loy, hiy)
                         yield 'BL %s %s %s %s' % (fm(sx, n, f), 's' if sy else 'u', L([ca]), L([cb]))
@@ -127,6 +153,10 @@ def generate(tier, rng):
         elif what < 0.55:
             xs = [ca] if rng.random() < 0.6 else [ca, pick(lox, hix), pick(lox, hix)]      # scalar or array x, scalar y
             yield 'BW %s ff %s %s %s %s %s' % (rng.choice(['and', 'or', 'xor']), fm(sx, n, f), fm(sy, n, rng.randint(0, n)), o, L(xs), L([cb]))
+            ys = [rng.choice([loy, hiy, 0, 1, rng.randint(loy, hiy)]) for _ in xs]
+            yield 'BW %s ff %s %s %s %s %s' % (rng.choice(['and', 'or', 'xor']), fm(sx, n, f), fm(sy, n, rng.randint(0, n)), o, L(xs), L(ys))
+            yield 'BW %s %s %s %s %s %s %s' % (rng.choice(['and', 'or', 'xor']), rng.choice(['fm', 'mf']), fm(sx, n, f), fm(sx, n, f), o, L(xs),
+                                               L([rng.choice([0, -1, (1 << n) - 1, 1 << 63, rng.getrandbits(n)]) for _ in xs]))
         elif what < 0.75:
             m = rng.choice([rng.getrandbits(n), -rng.getrandbits(n), rng.getrandbits(n + 5), (1 << n) - 1, 1 << (n - 1)])
             yield 'BW %s %s %s %s %s %s %s' % (rng.choice(['and', 'or', 'xor']), rng.choice(['fm', 'mf']), fm(sx, n, f), fm(sx, n, f), o, L([ca]), L([m]))
